@@ -131,14 +131,14 @@ Theorem gen_day_plus_eq : forall d dd,
   day_plus_m d dd = Contract \/ of_opt (Gen_chrono.day_plus_g d dd) = day_plus_m d dd.
 Proof.
   intros d dd. unfold Gen_chrono.day_plus_g, day_plus_m, day_ctor_m.
-  destruct (_ <? 255); [right; reflexivity|left; reflexivity].
+  destruct (_ <=? 255); [right; reflexivity|left; reflexivity].
 Qed.
 
 Theorem gen_day_minus_days_eq : forall d dd,
   day_minus_days_m d dd = Contract \/ of_opt (Gen_chrono.day_minus_days_g d dd) = day_minus_days_m d dd.
 Proof.
   intros d dd. unfold Gen_chrono.day_minus_days_g, day_minus_days_m, day_ctor_m.
-  destruct (_ <? 255); [right; reflexivity|left; reflexivity].
+  destruct (_ <=? 255); [right; reflexivity|left; reflexivity].
 Qed.
 
 Theorem gen_day_diff_eq : forall a b, 0 <= a <= 255 -> 0 <= b <= 255 ->
